@@ -29,7 +29,7 @@ import (
 // net/mail) to the model's names and addresses.
 
 type C06Op struct {
-	Kind  string     `json:"kind"` // set | add | addformat | ignoreinvalid | fromstring | format
+	Kind  string     `json:"kind"`  // set | add | addformat | ignoreinvalid | fromstring | format
 	Field string     `json:"field"` // to | cc | bcc | from | envfrom | replyto
 	Addrs []AddrSpec `json:"addrs,omitempty"`
 	Junk  []string   `json:"junk,omitempty"` // invalid inputs mixed in (position: appended)
@@ -53,8 +53,8 @@ type c06 struct{}
 
 func init() { register(&c06{}) }
 
-func (*c06) ID() string                      { return "C06" }
-func (*c06) Level() string                   { return "exploration" }
+func (*c06) ID() string                     { return "C06" }
+func (*c06) Level() string                  { return "exploration" }
 func (*c06) Decode(raw []byte) (any, error) { return decodeInto[C06Scenario](raw) }
 
 var c06Names = []string{"", "", "Plain Name", "Last, First", "Ünï Cödé", "名前 太郎", "Dr. Who (tardis)", "semi;colon", "at@sign", "a very long display name that will have to be folded somewhere along the line by the header writer",
